@@ -87,6 +87,7 @@ def gen_case(rng: random.Random, tier: str, bias: str = ''):
     ch = rng.choice([('random', ep), ('random', ep), ('sticky', 0.2, ep), ('sticky', 0.05, ep),
                      ('pct', 2, 300, ep), ('pct', 3, 300, ep)])
     return dict(kind=kind, n=n, src=src, cap=cap, conc=conc, rexc=rexc, retx=rng.random() < 0.4,
+                none_at=(rng.randrange(n) if n and rng.random() < 0.25 else None),
                 pre=pre, pf=pf, re=re, rv=rv, again=again, stop_after=stop_after,
                 stop_mode=rng.choice(['close', 'close', 'del', 'throw']), dur=dur, chooser=list(ch),
                 seed=rng.randrange(1 << 30))
@@ -125,12 +126,12 @@ def expected(case):
     return out, end
 
 
-def _decode(v, retx):
+def _decode(v, retx, none_at=None):
     """-> (index from x or None, index from y, kind of y)"""
     ix = None
     if retx:
         x, y = v
-        ix = x - BASE
+        ix = none_at if x is None else x - BASE
     else:
         y = v
     if isinstance(y, WorkError):
@@ -152,6 +153,7 @@ def run_case(case):
     n, conc, cap = case['n'], case['conc'], case['cap']
     pf, re, dur = set(case['pf']), set(case['re']), case['dur']
     rv = set(case.get('rv', ()))
+    none_at = case.get('none_at')
 
     class Src:
         def __init__(self):
@@ -172,6 +174,8 @@ def run_case(case):
                 if ahead > state['max_ahead']:
                     state['max_ahead'] = ahead
                 log(('pull', i))
+                if i == none_at:
+                    return None         # `None` is an ordinary element (e.g. the output of an upstream stage run for its side effect)
                 return BASE + i
             if case['src'] == 'clean':
                 log(('srcEnd',))
@@ -182,7 +186,7 @@ def run_case(case):
             raise StopRequested()
 
     def work(x):
-        i = x - BASE
+        i = none_at if x is None else x - BASE
         state['calls'][i] = state['calls'].get(i, 0) + 1
         state['running'] += 1
         if state['running'] > state['max_running']:
@@ -212,7 +216,7 @@ def run_case(case):
             state['running'] -= 1
 
     def pre(x):
-        i = x - BASE
+        i = none_at if x is None else x - BASE
         if i in pf:
             log(('preFail', i))
             raise PreError(i)
@@ -221,7 +225,7 @@ def run_case(case):
     class LoggingTPE(_OrigTPE):
         def submit(self, fn, x, *a, **kw):
             if not state.get('second'):
-                log(('submit', x - BASE))
+                log(('submit', none_at if x is None else x - BASE))
             return super().submit(fn, x, *a, **kw)
 
     def main():
@@ -267,7 +271,7 @@ def run_case(case):
                 first = False
                 v = next(gen)
                 state['recv'] += 1
-                ix, iy, kind = _decode(v, case['retx'])
+                ix, iy, kind = _decode(v, case['retx'], case.get('none_at'))
                 log(('yld', iy if iy is not None else -1))
                 out.append((ix, iy, kind))
                 if case['stop_after'] is not None and len(out) == case['stop_after']:
